@@ -13,7 +13,7 @@ ID = 'C03'
 RULE = ('seeded structured generator of MIDI-representable NoteSequences (1-6 (instrument, program, is_drum) groups incl. '
         'several programs on one instrument number and instrument 0, drums, tpq 24..960 or unset, 0-4 tempos with '
         'microsecond-representable qpm in random storage order, times off the tick grid, touching notes, notes exactly '
-        'two ticks long, ccs/bends on note-less instruments, time/key signatures); each case is run as op "write" (writer '
+        'two ticks long, ccs/bends on note-less instruments, time/key signatures) plus a stream of 3-8 tempo changes at off-grid times with same-sign sub-tick remainders at tpq 24/48/96; each case is run as op "write" (writer '
         'glue alone vs the model) and op "rt" (write -> PrettyMIDI.write -> midi_to_note_sequence vs model and oracle); '
         'non-trivial = at least one note and (>= 2 groups or a tempo change or an off-grid time); distinct by canonical input')
 ASSUMPTIONS = [
@@ -422,6 +422,34 @@ def oracle(case, io_):
                 else:
                     return {'kind': 'tempo-in-effect-changed', 'at_units': p, 'in_us': a, 'out_us': b,
                             'tempos_time_sorted': tin == sorted(tin, key=lambda r: r[0])}
+        # every tempo change comes back within ONE tick of where it was put: exact integer arithmetic on the ORIGINAL
+        # sequence (one tick of the tempo in force before the change = us_prev units); just more than one tick after
+        # the change the new tempo must be in effect, just more than one tick before it still the old one
+        segs = _tempo_segments(d)
+        for i in range(1, len(segs)):
+            t, us_new = segs[i]
+            us_prev = segs[i - 1][1]
+            if us_new == us_prev:
+                continue
+            drift = (t // (min_us - 1) + 2) if f19 else 0
+            nxt = segs[i + 1][0] if i + 1 < len(segs) else None
+            checks = []
+            pa = t + us_prev + drift + 1
+            if nxt is None or nxt - (us_new + drift) - 1 > pa:
+                checks.append((pa, us_new, 'after'))
+            pb = t - us_prev - drift - 1
+            if pb >= 0 and (i == 1 or segs[i - 1][0] + segs[i - 2][1] + drift + 1 < pb):
+                checks.append((pb, us_prev, 'before'))
+            for pp, a, side in checks:
+                b = _in_effect(tout, pp) or 500000
+                if a != b:
+                    if b == a - 1 and written_us(a, res) == b:
+                        one_us = {'kind': 'tempo-written-one-microsecond-short', 'us': a, 'resolution': res,
+                                  'third_party': 'pretty_midi.PrettyMIDI.write'}
+                    else:
+                        return {'kind': 'tempo-change-moved-more-than-one-tick', 'change_at_units': t,
+                                'change_index': i, 'probe_units': pp, 'side': side, 'tick_units': us_prev,
+                                'expected_us': a, 'out_us': b, 'resolution': res}
     sin = [(t, (num, den)) for t, num, den in d['tsigs']]
     sout = [(t, (num, den)) for t, num, den in tsigs]
     if _spaced(sin, 2 * max(in_us)):
@@ -565,6 +593,9 @@ def corpus():
         _desc(tempos=[(0, 600000), (0, 750000), (0, 600000)], notes=[n(64, sec, 3 * sec, ins=1)]),
         # two time signatures and two keys inside one tick, later one stored first (storage order wins on the tick)
         _desc(tsigs=[(200000, 4, 16), (100000, 2, 4)], ksigs=[(200000, 3, 1), (100000, 5, 0)], notes=[n(64, sec, 3 * sec)]),
+        # five tempo changes each 10.45 ticks (of the tempo in force) after the previous one, tpq 24
+        _desc(tpq=24, tempos=[(0, 500000), (5225000, 600000), (11495000, 500000), (16720000, 600000), (22990000, 500000),
+                              (28215000, 600000)], notes=[n(60, 0, 6000000), n(61, 31200000, 37200000)]),
         # same tempo twice in a row (the loader merges them)
         _desc(tempos=[(0, 600000), (sec, 600000), (2 * sec, 500000)], notes=[n(64, sec, 3 * sec, ins=1, dr=1)]),
     ]
@@ -596,6 +627,37 @@ def exhaustive(tier):
     return ds
 
 
+def gen_tempo_chain(rng):
+    """3-8 tempo changes at off-grid times whose sub-tick remainders (against the tempo in force) all have the same
+    sign, at a coarse resolution: a writer that lets rounding remainders accumulate from one change to the next puts
+    the later changes more than one tick away"""
+    tpq = rng.choice([24, 48, 96])
+    sign = rng.choice([1, -1])
+    vals = rng.sample([500000, 600000, 400000, 750000, 1000000, 428571, 545454, rng.randint(300000, 1200000)], 3)
+    tempos = []
+    us = 500000
+    t = 0
+    if rng.random() < 0.7:
+        us = vals[0]
+        tempos.append([0, us])
+    for i in range(rng.randint(3, 8)):
+        frac = rng.randint(30, 48) * us // 100
+        t += rng.randint(4, 30) * us + sign * frac
+        nus = rng.choice([v for v in vals if v != us])
+        tempos.append([t, nus])
+        us = nus
+    umax = max([500000] + [r[1] for r in tempos])
+    notes = []
+    s0 = rng.randint(0, umax)
+    for j in range(rng.randint(1, 3)):
+        ln = rng.randint(2 * umax, 12 * umax)
+        notes.append([60 + j, 80, s0, s0 + ln, 0, 0, 0])
+        s0 += ln + rng.randint(0, t // 3 + 1)
+    if rng.random() < 0.5:
+        rng.shuffle(tempos)
+    return _desc(tpq, notes, tempos)
+
+
 def cases(rng, tier, n=None):
     k = 450 if tier == 'quick' else 40000
     if n is not None:
@@ -603,6 +665,9 @@ def cases(rng, tier, n=None):
     ds = exhaustive(tier) if n is None else []
     for i in range(k):
         ds.append(gen_desc(rng, big=(i % 5 == 0)))
+    crng = __import__('random').Random(rng.randint(0, 2 ** 30))
+    for i in range(k // 6):
+        ds.append(gen_tempo_chain(crng))
     out = []
     for d in ds:
         out.append({'op': 'write', 'input': d})
